@@ -106,6 +106,22 @@ Theorem C12_strip_idempotent : forall t, strip (strip t) = strip t.
 Proof. exact GlobalProofs.strip_idem. Qed.
 Print Assumptions C12_strip_idempotent.
 
+(** the models an Importer parses into its library: the same, file by file *)
+Theorem C12_blank_insensitive_import : forall g1 g2 docs,
+  map (fun d => (erase_math (parse_ent g1 d), parse_issues g1 d)) docs
+  = map (fun d => (erase_math (parse_ent g2 d), parse_issues g2 d)) docs.
+Proof. exact GlobalProofs.blank_insensitive_import. Qed.
+Print Assumptions C12_blank_insensitive_import.
+
+(** resolveImports and flattenModel never clear the flag *)
+Theorem C12_resolve_keeps_or_sets : forall g docs, step g (OResolve docs) = false -> g = false.
+Proof. exact GlobalProofs.resolve_keeps_or_sets. Qed.
+Print Assumptions C12_resolve_keeps_or_sets.
+
+Theorem C12_flatten_keeps_or_sets : forall g maths, step g (OFlatten maths) = false -> g = false.
+Proof. exact GlobalProofs.flatten_keeps_or_sets. Qed.
+Print Assumptions C12_flatten_keeps_or_sets.
+
 (** ** 3. What the flag cannot change: the consumers of a stored math string *)
 
 (** the printed math does not depend on the flag under which the string was captured (printMath parses under 0) *)
